@@ -184,6 +184,17 @@ class ReentrantTableFilter(TableFilter):
         return super().__call__(*args)
 
 
+class UnhashableTableFilter(TableFilter):
+    """a filter callable that cannot be hashed (a callable dataclass, any class defining `__eq__` without
+    `__hash__`): filter numbers 5 modulo 13.  neighbors() uses its arguments as the memo key: such a query is
+    answered, never cached, and nothing raises (model: `M.unhashable`)."""
+
+    def __eq__(self, other):
+        return type(other) is type(self) and other.k == self.k
+
+    __hash__ = None
+
+
 def plain_filter(ad, k):
     """filter number k as a PLAIN function without a closure — the loop idiom `lambda e, v, k=k: …`:
     all such filters share ONE code object and differ only in their default values"""
@@ -388,6 +399,10 @@ class Real:
             # a SHORT-LIVED callable (an inline lambda in user code): a new object per call, dropped
             # afterwards, so that its address can be reused by the next one
             return TableFilter(self, k, 2)
+        if k % 13 == 5:
+            if k not in self.filters2:
+                self.filters2[k] = UnhashableTableFilter(self, k, 2)
+            return self.filters2[k]
         if k not in self.filters2:
             if k % 7 == 3 and self.plain_filters and not self.long_lived_filters:
                 self.filters2[k] = plain_filter(self, k)
@@ -402,6 +417,10 @@ class Real:
             return None
         if k % 5 == 2 and not self.long_lived_filters:
             return TableFilter(self, k, 1)
+        if k % 13 == 5:
+            if k not in self.filters1:
+                self.filters1[k] = UnhashableTableFilter(self, k, 1)
+            return self.filters1[k]
         if k not in self.filters1:
             if k % 7 == 3 and self.plain_filters and not self.long_lived_filters:
                 self.filters1[k] = plain_filter(self, k)
